@@ -212,6 +212,9 @@ def one_case(acc, plan, case, rowname, wordrepr):
     if res.range_bad:
         acc.violation('%s:%s:out-of-range' % (plan.prop, row), case, {'keys': res.range_bad})
         return res
+    if not res.diffs and res.status == 'ok' and res.exc is None and case.get('steps', 1) == 1 and not case.get('inject') and \
+            (case['state'].get('cpsr', 0) + case['state'].get('R.R1usr', 0)) % 13 == 0:
+        reexecute_check(acc, plan, case, row, res)
     if res.diffs:
         if plan.accept and plan.accept(acc, res, case):
             return res
@@ -235,6 +238,33 @@ def one_case(acc, plan, case, rowname, wordrepr):
         acc.violation(b, case, {'diffs(expected,observed)': e1.fmt_diff(res.diffs), 'ref_status': res.status, 'ref_detail': res.detail,
                                 'step': res.step})
     return res
+
+
+def reexecute_check(acc, plan, case, row, res):
+    """a decoded opcode object is a value: an embedder may keep it (a decoded-instruction cache for a loop body, shared by several processors) and hand it
+    to execute_instruction() again. One object, decoded once, is executed on two fresh instances built from the same case; both must end in the state
+    the ordinary step produced."""
+    try:
+        a, b = e1.build(case), e1.build(case)
+        instr = a.fetch_instruction()
+        b.fetch_instruction()
+        cls = a.decode_instruction(instr)
+        op = cls.from_bitarray(instr, a) if cls else None
+        if op is None:
+            return
+        snaps = []
+        for cpu in (a, b):
+            cpu.execute_instruction(op)
+            cpu.increment_pc_if_needed()
+            snaps.append(target.snapshot(cpu, True))
+    except Exception:       # noqa: BLE001 - an instruction that ends in an exception is handled by emulate_cycle, not by this embedder-level path
+        return
+    acc.cls('opcode-object-executed-again')
+    for i_, sn in enumerate(snaps):
+        d = {k: (res.post.get(k), v) for k, v in sn.items() if k in res.post and res.post.get(k) != v}
+        if d:
+            acc.violation('%s:%s:opcode-object-%s-execution:%s' % (plan.prop, row, ('first', 'second')[i_], sig(d)), case, {'diffs(ordinary step, this execution)': e1.fmt_diff(d)})
+            return
 
 
 def shard(plan_ref, seed, examples):
